@@ -3,7 +3,7 @@
    function as the hand-written model (Model/C10.v). *)
 From Coq Require Import String.
 Require Import OV.Base.Bytes OV.Base.Py OV.Base.PyInt OV.Base.Str OV.Base.Regex OV.Base.PyFloat.
-Require Import OV.Gen.C10_Units OV.Model.C10 OV.Gen.C10_Code.
+Require Import OV.Model.C10_Regex OV.Gen.C10_Units OV.Model.C10 OV.Gen.C10_Code.
 Open Scope Z_scope.
 
 Lemma is_bit_unit_in o : optstr_in o [[98%N]; [98%N; 105%N; 116%N]] = is_bit_unit o.
@@ -17,7 +17,7 @@ Theorem gen_string_to_bytes_equiv : forall text unit_system return_int,
 Proof.
   intros t u ri. unfold gen_string_to_bytes, string_to_bytes.
   destruct (lookup u unit_system_info) as [[base rx]|]; [|reflexivity].
-  cbv zeta. destruct (re_match rx t) as [[e g]|]; [|reflexivity].
+  cbv zeta. destruct (rz_match rx t) as [[e g]|]; [|reflexivity].
   unfold float_of_optstr. destruct (group_text t g 1) as [g1|]; [|reflexivity].
   destruct (py_float_of_str g1) as [m|]; [|reflexivity].
   rewrite is_bit_unit_in.
